@@ -113,15 +113,16 @@ def new (id : Nat) (k : Kind) (fd : Nat) (d : Dir) : Op :=
     pendMore := [], pendFinal := none, freed := 0, returned := 0, uaf := false, finalSeen := false,
     produced := [], cancelDropped := 0 }
 
-/-- drop of one `ErasedKey` -/
-def dropRef (o : Op) : Op :=
-  if o.rc = 0 then { o with uaf := true }
-  else if o.rc = 1 then { o with rc := 0, freed := o.freed + 1 }
-  else { o with rc := o.rc - 1 }
+/-- drop of `n` `ErasedKey`s of this op, one after the other: the count goes down; the drop that takes it
+from 1 to 0 frees the operation; a drop at count 0 touches released storage.
+(Closed form; `dropRefs_succ` in Lemmas/KeyLife.lean shows it is the iteration of the single drop.) -/
+def dropRefs (o : Op) (n : Nat) : Op :=
+  { o with rc := o.rc - n,
+           freed := if 0 < o.rc ∧ o.rc ≤ n then o.freed + 1 else o.freed,
+           uaf := o.uaf || decide (o.rc < n) }
 
-def dropRefs (o : Op) : Nat → Op
-  | 0 => o
-  | n + 1 => (o.dropRef).dropRefs n
+/-- drop of one `ErasedKey` -/
+def dropRef (o : Op) : Op := o.dropRefs 1
 
 /-- `ErasedKey::clone` -/
 def cloneRef (o : Op) : Op := { o with rc := o.rc + 1 }
@@ -129,13 +130,13 @@ def cloneRef (o : Op) : Op := { o with rc := o.rc + 1 }
 /-- `Key::take_result` on a unique key: the operation is moved out to the caller -/
 def takeResult (o : Op) : Op := { o with rc := 0, user := 0, returned := o.returned + 1 }
 
-/-- `Entry::notify` for each entry of the completed channel, oldest first: `set_result`, drop the entry's key -/
-def notifyAll : Op → List Res → Op
-  | o, [] => o
-  | o, r :: rs => notifyAll ({ o with result := some r }.dropRef) rs
-
-/-- `poll_blocking` / `poll_completed` restricted to this op -/
-def drainChan (o : Op) : Op := notifyAll { o with chan := [] } o.chan
+/-- `poll_blocking` / `poll_completed` restricted to this op: `Entry::notify` for each entry of the completed
+channel, oldest first (`set_result`, then the entry's key is dropped): the last result stays, as many
+references as entries are dropped -/
+def drainChan (o : Op) : Op :=
+  match o.chan.getLast? with
+  | none => o
+  | some r => { o with chan := [], result := some r }.dropRefs o.chan.length
 
 /-- the channel is destroyed with entries still queued -/
 def dropChan (o : Op) : Op := { o with chan := [] }.dropRefs o.chan.length
@@ -145,27 +146,30 @@ def submit (o : Op) : Op :=
   { o with kstat := if o.kstat = .queued then .inflight else o.kstat,
            kcancel := o.kcancel || decide (0 < o.cancelSq), cancelSq := 0 }
 
-/-- `poll_entries` restricted to this op: CQEs with `more` go through a `BorrowedKey` to `push_multishot`;
-the final one removes the user_data from `in_flight`, re-materialises the leaked key (`create_entry`),
-stores the result (`Entry::notify`) and drops that key -/
+/-- `poll_entries` restricted to this op: CQEs with `more` go through a `BorrowedKey` to `push_multishot`
+(a dereference: released storage would be touched); the final one removes the user_data from `in_flight`,
+re-materialises the leaked key (`create_entry`), stores the result (`Entry::notify`) and drops that key -/
 def drainCq (o : Op) : Op :=
-  let o1 : Op := if o.pendMore ≠ [] ∧ o.rc = 0 then { o with uaf := true } else o
-  let o2 : Op := { o1 with multi := o1.multi ++ o1.pendMore, pendMore := [] }
-  match o2.pendFinal with
+  let o2 : Op := { o with multi := o.multi ++ o.pendMore, pendMore := [],
+                          uaf := o.uaf || (!o.pendMore.isEmpty && o.rc == 0) }
+  match o.pendFinal with
   | none => o2
   | some r => { o2 with pendFinal := none, inFl := false, result := some r, finalSeen := true }.dropRef
 
+/-- number of CQEs the `Drop` drain loop turns back into keys for this op -/
+def dropDrainCount (chk : Bool) (o : Op) : Nat :=
+  (if chk then 0 else o.pendMore.length) + (if o.pendFinal.isSome then 1 else 0)
+
 /-- CQ drain loop of `impl Drop for iour::Driver` restricted to this op: every CQE carrying the op's
-user_data is turned back into a key and dropped. `chk` = the loop skips CQEs flagged `more`
-(`Gen.iourDropDrainChecksMore`; the code at the pinned commit does not, finding F13). -/
+user_data is turned back into a key (`in_flight.remove`, `ErasedKey::from_raw`) and dropped. `chk` = the loop
+skips CQEs flagged `more` (`Gen.iourDropDrainChecksMore`; the code at the pinned commit does not, F13). -/
 def dropDrain (chk : Bool) (o : Op) : Op :=
-  let n := (if chk then 0 else o.pendMore.length) + (if o.pendFinal.isSome then 1 else 0)
-  if n = 0 then { o with pendMore := [], pendFinal := none }
-  else { o with pendMore := [], pendFinal := none, inFl := false }.dropRefs n
+  { o with pendMore := [], pendFinal := none,
+           inFl := if o.dropDrainCount chk = 0 then o.inFl else false }.dropRefs (o.dropDrainCount chk)
 
 /-- `for user_data in self.in_flight.drain() { drop(from_raw(user_data)) }` restricted to this op -/
 def freeInFlight (o : Op) : Op :=
-  if o.inFl then { o with inFl := false }.dropRef else o
+  { o with inFl := false }.dropRefs (if o.inFl then 1 else 0)
 
 end Op
 
@@ -304,25 +308,30 @@ def driverCancel (s : State) (id : Nat) (o : Op) : State :=
   | .iour => iourCancel s id
   | .poll => pollCancel s id o
 
+/-- the tail shared by `Proactor::cancel` and `Proactor::cancel_token` once `set_cancelled()` returned false and the
+driver has to be asked: the flag is set, `Driver::cancel(key)` runs, and the key that was passed in (counted in
+`rc` and `user`) is dropped -/
+def cancelIssue (s : State) (id : Nat) (o : Op) : State :=
+  let s1 := { s with ops := modAt (fun o => { o with cancelled := true }) s.ops id }
+  let s2 := driverCancel s1 id o
+  { s2 with ops := modAt (fun o => { o with user := o.user - 1 }.dropRef) s2.ops id }
+
 /-- `Proactor::cancel(key)` where the key passed in is already counted in `rc` and `user` -/
 def cancelKey (s : State) (id : Nat) (o : Op) : State :=
   if o.cancelled then
     { s with ops := modAt (fun o => { o with user := o.user - 1 }.dropRef) s.ops id }
   else if o.rc = 1 ∧ o.result.isSome then
     { s with ops := modAt (fun o => { o with cancelled := true }.takeResult) s.ops id }
-  else
-    let s1 := { s with ops := modAt (fun o => { o with cancelled := true }) s.ops id }
-    let s2 := driverCancel s1 id o
-    { s2 with ops := modAt (fun o => { o with user := o.user - 1 }.dropRef) s2.ops id }
+  else cancelIssue s id o
 
-/-- `Proactor::cancel_token(token)`; `o.rc > 0` (the upgrade succeeded) -/
+/-- `Proactor::cancel_token(token)`; `o.rc > 0`: `token.upgrade()` yields a temporary key, counted like a
+handle of the caller until it is dropped at the end of the call -/
 def cancelTok (s : State) (id : Nat) (o : Op) : State :=
+  let o1 : Op := { o.cloneRef with user := o.user + 1 }
+  let s0 := { s with ops := modAt (fun o => { o.cloneRef with user := o.user + 1 }) s.ops id }
   if o.cancelled ∨ o.result.isSome then
-    { s with ops := modAt (fun o => { o.cloneRef with cancelled := true }.dropRef) s.ops id }
-  else
-    let s1 := { s with ops := modAt (fun o => { o.cloneRef with cancelled := true }) s.ops id }
-    let s2 := driverCancel s1 id o
-    { s2 with ops := modAt Op.dropRef s2.ops id }
+    { s0 with ops := modAt (fun o => { o with cancelled := true, user := o.user - 1 }.dropRef) s0.ops id }
+  else cancelIssue s0 id o1
 
 /-- return value of `cancel_token` -/
 def cancelTokRet (o : Op) : Bool := decide (0 < o.rc) && !o.cancelled && o.result.isNone
@@ -336,7 +345,9 @@ def execDStep (c : Cfg) (s : State) : DStep → State
   | .drainCq =>
     { s with hazard := s.hazard || (!c.drainChecksMore && s.ops.any (fun o => !o.pendMore.isEmpty)),
              ops := s.ops.map (Op.dropDrain c.drainChecksMore) }
-  | .closeRing => { s with ring := false }
+  | .closeRing =>
+    -- the rings are unmapped: whatever the kernel posted after the drain loop is gone
+    { s with ring := false, ops := s.ops.map fun o => { o with pendMore := [], pendFinal := none } }
   | .freeInFlight => { s with ops := s.ops.map Op.freeInFlight }
   | .pollDelete => { s with armed := fun _ => noInterest }
   | .fields =>
@@ -378,7 +389,7 @@ def step (c : Cfg) (s : State) : Event → Option State
     | some o =>
       if s.alive ∧ 0 < o.user then
         let o' : Op := { o.cloneRef with user := o.user + 1 }
-        some (cancelKey { s with ops := modAt (fun _ => o') s.ops id } id o')
+        some (cancelKey { s with ops := modAt (fun o => { o.cloneRef with user := o.user + 1 }) s.ops id } id o')
       else none
     | none => none
   | .userDrop id =>
